@@ -31,8 +31,21 @@ FRESH = {"zeros", "ones", "nparray", "call:numpy.full", "call:numpy.zeros", "cal
 
 
 # methods of this code base and constructors that return arrays / objects, never None (a None result only follows an error exit)
-NEVER_NONE = {"self._apply_axis", "self._get_score", "self.preaggregate", "nparray", "zeros", "ones", "getitem", "setitem", "where", "sort", "unique",
+NEVER_NONE = {"self._apply_axis", "self._get_score", "self.preaggregate", "nparray", "zeros", "ones", "setitem", "where", "sort", "unique",
               "pylist", "map", "abs", "isnan", "isinf", "and", "or", "not", "cmp_lt", "cmp_le", "cmp_eq", "cmp_ne", "len"}
+_ARRAYS = {"self._apply_axis", "self._get_score", "self.preaggregate", "nparray", "zeros", "ones", "setitem", "where", "sort", "unique", "map"}
+
+
+def _never_none(at, depth=0):
+    """Is the value of this atom never None?  An element of an ARRAY is not; an element of a tuple / list / dictionary handed in by
+    someone else may well be (``x, y, _, labels, descs = self._get_x_y(...)`` with descs None), so a subscript counts only when what
+    is subscripted is itself an array expression."""
+    if at.func in NEVER_NONE or at.func.startswith("call:numpy."):
+        return True
+    if at.func == "getitem" and depth < 6 and at.args and isinstance(at.args[0], Rat):
+        b = at.args[0].as_atom()
+        return b is not None and (b.func in _ARRAYS or b.func.startswith("call:numpy.") or (b.func == "getitem" and _never_none(b, depth + 1)))
+    return False
 
 
 LOOP_NAMING = "space"       # "space": a loop symbol is named by what the loop runs over; "order": by the loop's position
@@ -114,7 +127,7 @@ def canon(r, loopvars, memo=None):
                     if other.func == "ifexp" and len(other.args) == 3 and all(isinstance(z, Rat) for z in other.args):
                         return form.apply("ifexp", [other.args[0], form.apply(at.func, [none - other.args[1], Rat.const(0)]),
                                                     form.apply(at.func, [none - other.args[2], Rat.const(0)])])
-                    if other.func in NEVER_NONE or other.func.startswith("call:numpy."):
+                    if _never_none(other):
                         return Rat.const(0 if at.func == "cmp_eq" else 1)
             elif len(nones) == 1 and len(sh) > 2:
                 return Rat.const(0 if at.func == "cmp_eq" else 1)      # arithmetic is never None
